@@ -83,6 +83,68 @@ macro_rules! verif_ev {
 }
 
 // ---------------------------------------------------------------------------------------
+// Formatting helpers for the event log.
+
+pub fn micros(t: Instant) -> u128 {
+    t.duration_since(epoch()).as_micros()
+}
+
+pub fn join(items: &[String]) -> String {
+    if items.is_empty() {
+        "-".to_string()
+    } else {
+        items.join(",")
+    }
+}
+
+pub fn ids_of(messages: &[Arc<TopicMessage>]) -> String {
+    join(
+        &messages
+            .iter()
+            .map(|m| m.id.to_string())
+            .collect::<Vec<_>>(),
+    )
+}
+
+/// `ack/message id/deadline µs` per pulled message.
+pub fn pulled_of(pulled: &[PulledMessage]) -> String {
+    join(
+        &pulled
+            .iter()
+            .map(|p| {
+                format!(
+                    "{}/{}/{}",
+                    p.ack_id(),
+                    p.message().id,
+                    micros(p.deadline().time())
+                )
+            })
+            .collect::<Vec<_>>(),
+    )
+}
+
+/// `ack=deadline µs` or `ack=n` (nack) per modification.
+pub fn mods_of(mods: &[DeadlineModification]) -> String {
+    join(
+        &mods
+            .iter()
+            .map(|m| match &m.new_deadline {
+                Some(d) => format!("{}={}", m.ack_id, micros(d.time())),
+                None => format!("{}=n", m.ack_id),
+            })
+            .collect::<Vec<_>>(),
+    )
+}
+
+pub fn sub_ids_of<'a>(
+    subs: impl Iterator<Item = &'a Arc<crate::subscriptions::Subscription>>,
+) -> String {
+    let mut ids = subs.map(|s| s.internal_id).collect::<Vec<_>>();
+    ids.sort();
+    join(&ids.iter().map(|i| i.to_string()).collect::<Vec<_>>())
+}
+
+// ---------------------------------------------------------------------------------------
 // Crate-private pure functions.
 
 /// The process-wide epoch `AckDeadline::new` rounds against (forces its initialisation).
